@@ -370,11 +370,7 @@ def _py_duration_tabulate(ctx) -> None:
     fn = m.func("_parse_iso8601_duration")
     try:
         pat = re.compile(core.const("parsing.iso8601", "ISO8601_DURATION"), re.VERBOSE)
-        consts = {}
-        for st in m.tree.body:
-            if isinstance(st, ast.ImportFrom) and st.module == "pendulum.constants":
-                for a in st.names:
-                    consts[a.asname or a.name] = core.const("constants", a.name)
+        consts = minieval.module_consts(m)
         bad, n = [], 0
         for text, want in PY_DURATIONS:
             glob = {**consts, "ISO8601_DURATION": pat, "ParserError": ValueError, "ValueError": ValueError,
